@@ -150,15 +150,64 @@ def write_list_file(path, order, bams):
     return path
 
 
-def write_yaml_file(path, order, bams):
+def write_yaml_file(path, order, bams, illumina=None):
+    """`illumina`: optional {experiment name: [short-read BAM paths]} -> the per-experiment `illumina bam` key"""
+    illumina = illumina or {}
     with open(path, "w") as f:
         f.write('[\n  data format: "bam",\n')
         ents = []
         for nm in order:
-            ents.append('  {\n    name: "%s",\n    long read files: [\n%s\n    ]\n  }'
-                        % (nm, ",\n".join('      "%s"' % b for b in bams[nm])))
+            e = '  {\n    name: "%s",\n    long read files: [\n%s\n    ]' % (nm, ",\n".join('      "%s"' % b for b in bams[nm]))
+            if illumina.get(nm):
+                e += ',\n    illumina bam: [%s]' % ", ".join('"%s"' % b for b in illumina[nm])
+            ents.append(e + '\n  }')
         f.write(",\n".join(ents) + "\n]\n")
     return path
+
+
+def write_short_read_bam(long_bams, short_bam, shift=4, flank=50, copies=3):
+    """short spliced reads whose introns end `shift` bp after the introns of the long reads: the shape of
+    junction IlluminaExonCorrector moves a long-read junction to.  Returns the number of junctions written."""
+    import pysam
+    introns = set()
+    header = None
+    for lb in long_bams:
+        inf = pysam.AlignmentFile(lb, "rb")
+        header = header or inf.header
+        for r in inf:
+            if r.is_unmapped or r.is_secondary or r.is_supplementary:
+                continue
+            pos = r.reference_start
+            for op, ln in r.cigartuples:
+                if op == 3:
+                    introns.add((r.reference_name, pos, pos + ln))
+                if op in (0, 2, 3, 7, 8):
+                    pos += ln
+        inf.close()
+    segs = []
+    out = pysam.AlignmentFile(short_bam, "wb", header=header)
+    n = 0
+    for chrom, s, e in sorted(introns, key=lambda x: (out.get_tid(x[0]), x[1] - flank, x[2])):
+        if s - flank < 0:
+            continue
+        for k in range(copies):
+            a = pysam.AlignedSegment(out.header)
+            a.query_name = "short_%d_%d" % (n, k)
+            a.query_sequence = "A" * (2 * flank)
+            a.flag = 0
+            a.reference_id = out.get_tid(chrom)
+            a.reference_start = s - flank
+            a.mapping_quality = 60
+            a.cigartuples = [(0, flank), (3, e + shift - s), (0, flank)]
+            a.query_qualities = pysam.qualitystring_to_array("I" * (2 * flank))
+            segs.append(a)
+        n += 1
+    segs.sort(key=lambda a: (a.reference_id, a.reference_start))
+    for a in segs:
+        out.write(a)
+    out.close()
+    pysam.index(short_bam)
+    return n
 
 
 def random_specs(rng, n, quick=True):
